@@ -24,4 +24,8 @@ package match
 //@   safety C07
 //@   requires bs != nil
 //@   modifies bs
-//@   ensures err == nil ==> r == bs
+//@   ensures same: err == nil ==> r == bs
+//@   ensures[C06,C07] noerr: len(pairs) % 2 == 0 && (forall j int :: 0 <= j && j < len(pairs) && j % 2 == 0 ==> is(pairs[j], string)) ==> err == nil
+//@   ensures[C18] others: forall k string :: old(k in bs) && (forall j int :: 0 <= j && j < len(pairs) && j % 2 == 0 ==> pairs[j] != box(k)) ==> (k in bs) && bs[k] == old(bs[k])
+//@   loop 0 invariant 0 <= i && i % 2 == 0 && i <= len(pairs)
+//@   loop 0 invariant[C18] kept: forall k string :: old(k in bs) && (forall j int :: 0 <= j && j < i && j % 2 == 0 ==> pairs[j] != box(k)) ==> (k in bs) && bs[k] == old(bs[k])
